@@ -146,6 +146,23 @@ fn candidate(prop: &str, r: &mut StdRng, pool: &mut Pool) -> (usize, Vec<Value>)
             ops.push(json!({"op": "bdd", "xs": xs}));
             (n, ops)
         }
+        "C08" if r.gen_range(0..5) == 0 => {
+            // a program on the iterator object: nth jumps, then a consuming tail
+            let n = r.gen_range(0..=5usize);
+            let t: u64 = 1u64 << (1u64 << n);
+            let len = r.gen_range(0..4);
+            let ks: Vec<usize> = (0..len)
+                .map(|_| match r.gen_range(0..5) {
+                    0 => 0,
+                    1 => r.gen_range(0..4),
+                    2 if n <= 4 => (t as usize).saturating_sub(r.gen_range(0..3)),
+                    3 if n <= 4 => t as usize + r.gen_range(0..3),
+                    _ => r.gen_range(0..=(t.min(1 << 16) / 2) as usize),
+                })
+                .collect();
+            let tail = if n == 5 { ["hint", "none"][r.gen_range(0..2)] } else { ["count", "last", "hint", "none"][r.gen_range(0..4)] };
+            (n, vec![json!({"op": "iter_prog", "n": n, "ks": ks, "tail": tail})])
+        }
         "C08" => {
             let n = pick_n(r, 0, 12);
             let a = pool.table(n, r);
@@ -347,6 +364,60 @@ fn suspicious(op: &Value, ev: &Value, slots: &[Option<naive::Tab>]) -> bool {
                 _ => return false,
             };
             ev["r"] != exp
+        }
+        "iter_prog" => {
+            let n = g("n");
+            let total: u128 = 1u128 << (1u32 << n);
+            let mut cur: u128 = 0;
+            let num = |j: &Value| -> Option<u128> {
+                let t = &j["t"];
+                if t["n"].as_u64() != Some(n as u64) || t["nb"].as_u64() != Some(1) || t.get("val").is_some() {
+                    return None;
+                }
+                let mut v = 0u128;
+                for x in t["on"].as_array()? {
+                    let b = x.as_u64()?;
+                    if b >= (1 << n) {
+                        return None;
+                    }
+                    v |= 1u128 << b;
+                }
+                Some(v)
+            };
+            let item_bad = |j: &Value, exp: Option<u128>| -> bool {
+                match exp {
+                    None => j["some"] != false,
+                    Some(v) => j["some"] != true || num(j) != Some(v),
+                }
+            };
+            let ks = op["ks"].as_array().unwrap();
+            let items = ev["r"]["items"].as_array().unwrap();
+            if items.len() != ks.len() {
+                return true;
+            }
+            for (k, j) in ks.iter().zip(items.iter()) {
+                let k = k.as_u64().unwrap() as u128;
+                let exp = if cur + k < total {
+                    let v = cur + k;
+                    cur = v + 1;
+                    Some(v)
+                } else {
+                    cur = total;
+                    None
+                };
+                if item_bad(j, exp) {
+                    return true;
+                }
+            }
+            let left = total - cur;
+            let bits = |v: &Value| -> u128 { v.as_array().map(|a| a.iter().fold(0u128, |m, x| m | (1u128 << x.as_u64().unwrap()))).unwrap_or(0) };
+            let tl = &ev["r"]["tail"];
+            match op["tail"].as_str().unwrap() {
+                "count" => bits(&tl["count"]) != left,
+                "last" => item_bad(&tl["last"], if left > 0 { Some(total - 1) } else { None }),
+                "hint" => bits(&tl["lo"]) > left || (tl["has_hi"] == true && bits(&tl["hi"]) < left),
+                _ => false,
+            }
         }
         "vnext" => {
             let (t, ok) = naive::succ(sl(g("a")));
